@@ -87,6 +87,9 @@ pub fn regressions(ctx: &Ctx) {
     for f in regress_files(&ctx.prop) {
         let Ok(s) = std::fs::read_to_string(&f) else { continue };
         let Ok(body) = serde_json::from_str::<serde_json::Value>(&s) else { continue };
+        if body.get("kind").and_then(|k| k.as_str()) == Some("c20-adapter") {
+            continue; // replayed by the second part of the C20 check (wstore)
+        }
         let mut rep = CaseReport::default();
         rep.features.insert("regression_replay".into());
         match replay_any(&body) {
